@@ -20,53 +20,47 @@ import time
 
 import vlib
 
-MC_CFG = """SPECIFICATION Spec
+CFG = """SPECIFICATION Spec
 CONSTANTS
-  NameSet = "{names}"
-  Mode = "{mode}"
+  Family = "{family}"
+  NameSet = "plain"
+  Mode = "manifest"
   MaxSteps = {steps}
   MaxLen = {maxlen}
-  OpKinds = {ops}
-  Deviations = {devs}
-VIEW view
+  OpKinds = {{}}
+  Deviations = {{}}
+{view}
 {invs}
 {props}
 CHECK_DEADLOCK FALSE
 """
-ALL_INVS = "INVARIANTS TypeOK CatalogIsMap UnfaithfulNamesRejected PagingCoversOnce"
+ALL_INVS = "INVARIANTS TypeOK CatalogIsMap UnfaithfulNamesRejected PagingCoversOnce GenPrint"
 ALL_PROPS = "PROPERTIES OperationsAreLocal"
 TRACE_CFG = """SPECIFICATION TraceSpec
 INVARIANT Report
 POSTCONDITION TraceAccepted
 CHECK_DEADLOCK FALSE
 """
-MUT = ["ns", "table", "register"]
-ALL_OPS = ["ns", "table", "register", "read", "list", "reopen"]
-OP_ACTIONS = {"ns": ("CreateNs", "DropNs"), "table": ("CreateTable", "DropTable"), "register": ("RegisterTable",),
-              "read": ("Read",), "list": ("List",), "reopen": ("Reopen",)}
-AS_BUILT_DEVS = ["DelimiterNameAccepted", "QuoteNameInterpolated", "KindBlindLookup", "PageTruncatedNoToken", "PathEncodingMismatch"]
-# (deviation, property it must break on the model (witness-printing variant), name set, mode, op kinds, steps)
-AS_BUILT = [
-    ("DelimiterNameAccepted", "CatalogIsMapW", "dollar", "manifest", MUT, 3),
-    ("DelimiterNameAccepted", "OperationsAreLocalW", "dollar", "manifest", MUT, 3),
-    ("DelimiterNameAccepted", "UnfaithfulNamesRejectedW", "dollar", "manifest", MUT, 3),
-    ("QuoteNameInterpolated", "CatalogIsMapW", "quote", "manifest", MUT, 3),
-    ("QuoteNameInterpolated", "OperationsAreLocalW", "quote", "manifest", MUT, 3),
-    ("KindBlindLookup", "CatalogIsMapW", "plain", "manifest", ["ns", "table"], 3),
-    ("PageTruncatedNoToken", "PagingCoversOnceW", "plain", "dual", ["table", "list"], 3),
-    ("PathEncodingMismatch", "UnfaithfulNamesRejectedW", "path", "dir", ["table"], 2),
-    ("PathEncodingMismatch", "CatalogIsMapW", "uni", "manifest", ["table"], 2),
-]
+ACTIONS = ("CreateNs", "DropNs", "CreateTable", "DropTable", "RegisterTable", "Read", "List", "Reopen")
+# as-built deviation -> the properties it must break on the model (Family "witness" of spec/Namespace.tla)
+AS_BUILT = {
+    "DelimiterNameAccepted": ["CatalogIsMap", "OperationsAreLocal", "UnfaithfulNamesRejected"],
+    "QuoteNameInterpolated": ["CatalogIsMap", "OperationsAreLocal"],
+    "KindBlindLookup": ["CatalogIsMap"],
+    "PageTruncatedNoToken": ["PagingCoversOnce"],
+    "PathEncodingMismatch": ["UnfaithfulNamesRejected", "CatalogIsMap"],
+}
+# the quantifier domains of Next depend on the setup (a state variable), so TLC reports coverage per disjunct of Next
+_RE_COV = re.compile(r"^<(Next|Reopen) line \d+, col \d+ to line \d+, col \d+ of module Namespace(?: \((\d+) [\d ]+\))?>: (\d+):(\d+)", re.M)
+ALL_OP_NAMES = ("create_ns", "drop_ns", "create_table", "create_empty_table", "drop_table", "deregister_table", "register_table",
+                "table_exists", "describe_table", "ns_exists", "describe_ns", "list_tables", "list_ns", "reopen")
+
+
+def cfg(family, steps=3, maxlen=2, view="VIEW view", invs=ALL_INVS, props=ALL_PROPS):
+    return CFG.format(family=family, steps=steps, maxlen=maxlen, view=view, invs=invs, props=props)
+
+
 TOKEN = {"U+00E9": "é"}
-
-
-def tla_set(xs):
-    return "{" + ", ".join(json.dumps(x) for x in xs) + "}"
-
-
-def cfg(names, mode, steps, ops, devs=(), maxlen=2, invs=ALL_INVS, props=ALL_PROPS):
-    return MC_CFG.format(names=names, mode=mode, steps=steps, maxlen=maxlen, ops=tla_set(ops), devs=tla_set(devs),
-                         invs=invs, props=props)
 
 
 # ---------------------------------------------------------------------------------------------
@@ -141,12 +135,20 @@ def features(hist):
         for n in ident:
             kinds.add("$" if "$" in n else "'" if "'" in n else "/" if "/" in n else "." if "." in n else
                       "u" if any(t in TOKEN for t in n) else "p")
-        fs.add((st["op"], len(ident), "".join(sorted(kinds))))
+        fs.add((st["op"], len(ident), "".join(sorted(kinds)), st.get("r", "")))
     return fs
 
 
+MUTATORS = ("create_ns", "drop_ns", "create_table", "create_empty_table", "drop_table", "register_table", "deregister_table")
+
+
+def productive(hist):
+    return sum(1 for st in hist if st["op"] in MUTATORS and st.get("r") == "ok")
+
+
 def pick(hists, cap, rnd):
-    """Feature-covering sample: histories that add an unseen (feature, feature) pair first, then random fill."""
+    """Feature-covering sample: histories that add an unseen (feature, feature) pair first, then the ones in
+    which most mutations take effect (a random history is mostly refused calls), then random fill."""
     if len(hists) <= cap:
         return list(hists), True
     order = list(range(len(hists)))
@@ -155,12 +157,17 @@ def pick(hists, cap, rnd):
     for i in order:
         fs = features(hists[i])
         pairs = {(a, b) for a in fs for b in fs if a <= b}
-        if pairs - seen and len(chosen) < cap * 2 // 3:
+        if pairs - seen and len(chosen) < cap // 2:
             seen |= pairs
             chosen.append(i)
         else:
             rest.append(i)
-    chosen += rest[: cap - len(chosen)]
+    rest.sort(key=lambda i: -productive(hists[i]))          # stable: keeps the shuffled order among equals
+    take = rest[: (cap - len(chosen)) * 2 // 3]
+    chosen += take
+    left = rest[len(take):]
+    rnd.shuffle(left)
+    chosen += left[: cap - len(chosen)]
     return [hists[i] for i in chosen], False
 
 
@@ -187,90 +194,56 @@ def run(prop, tier, replay):
     # 0. harness build (other phases run meanwhile) ---------------------------------------------------
     fut_build = pool.submit(vlib.harness_build, "vh_namespace")
 
-    # 1. model-check the intended design ------------------------------------------------------------------
-    if quick:
-        mc_runs = [("dollar-manifest", cfg("dollar", "manifest", 3, MUT), MUT),
-                   ("quote-dual", cfg("quote", "dual", 3, MUT), MUT),
-                   ("path-dir", cfg("path", "dir", 3, ["table", "list", "reopen"]), ["table", "list", "reopen"]),
-                   ("uni-dual-list", cfg("uni", "dual", 3, ["table", "list", "reopen"]), ["table", "list", "reopen"]),
-                   ("plain-manifest-all", cfg("plain", "manifest", 3, ALL_OPS), ALL_OPS)]
-        gen_from_mc = {"dollar-manifest": 60, "quote-dual": 40, "path-dir": 30, "uni-dual-list": 40, "plain-manifest-all": 40}
-    else:
-        mc_runs = [("dollar-manifest", cfg("dollar", "manifest", 4, MUT), MUT),
-                   ("dollar-dual", cfg("dollar", "dual", 4, MUT), MUT),
-                   ("quote-manifest", cfg("quote", "manifest", 4, MUT), MUT),
-                   ("quote-dual", cfg("quote", "dual", 3, ALL_OPS), ALL_OPS),
-                   ("path-dir", cfg("path", "dir", 4, ["table", "list", "reopen"]), ["table", "list", "reopen"]),
-                   ("path-dual", cfg("path", "dual", 4, ["table", "register", "list"]), ["table", "register", "list"]),
-                   ("uni-dual-list", cfg("uni", "dual", 4, ["table", "list", "reopen"]), ["table", "list", "reopen"]),
-                   ("uni-manifest", cfg("uni", "manifest", 4, MUT), MUT),
-                   ("plain-manifest-all", cfg("plain", "manifest", 4, ALL_OPS), ALL_OPS),
-                   ("plain-deep", cfg("plain", "manifest", 4, MUT, maxlen=3), MUT),
-                   ("mixed-manifest", cfg("mixed", "manifest", 3, MUT), MUT)]
-        gen_from_mc = {n: 250 for n, _, _ in mc_runs}
-
-    def with_gen(c):
-        return c.replace(ALL_INVS, ALL_INVS + " GenPrint")
-    fut_mc = {name: pool.submit(vlib.tlc_mc, f"{prop}-{name}", "Namespace", with_gen(c), 4, 2400, True, None, "6g")
-              for name, c, _ in mc_runs}
-
-    # 1b. the as-built deviations break the named property on the model ---------------------------------------
-    fut_dev = {}
-    for dev, inv, names, mode, ops, steps in AS_BUILT:
-        isprop = inv == "OperationsAreLocalW"
-        c = cfg(names, mode, steps, ops, devs=[dev], invs="INVARIANTS TypeOK" + ("" if isprop else " " + inv),
-                props="PROPERTIES " + inv if isprop else "")
-        fut_dev[(dev, inv)] = pool.submit(vlib.tlc_mc, f"{prop}-dev-{dev}-{inv}", "Namespace", c, 1, 900, False, None, "4g")
-
+    # 1. model-check the intended design (one TLC process per family of small universes) ---------------------
+    families = ["intended-quick"] if quick else ["intended-a", "intended-b", "intended-c"]
+    fut_mc = {f: pool.submit(vlib.tlc_mc, f"{prop}-{f}", "Namespace", cfg(f), 4, 3000, True, None, "6g") for f in families}
+    # 1b. every as-built deviation breaks the named properties on the model; the first violating history of each
+    #     (deviation, property) is printed as a witness and replayed below
+    wit_cfg = cfg("witness", view="VIEW view\nCONSTRAINT StillWanted",
+                  invs="INVARIANTS TypeOK CatalogIsMapW UnfaithfulNamesRejectedW PagingCoversOnceW", props="PROPERTIES OperationsAreLocalW")
+    fut_wit = pool.submit(vlib.tlc_mc, f"{prop}-witness", "Namespace", wit_cfg, 1, 1500, False, None, "4g")
     # 2. longer histories: seeded simulation of the as-built model (no property attached: generation only) --------
-    def gen(name, c, simulate):
-        g = c.replace(ALL_INVS, "INVARIANTS GenPrint").replace(ALL_PROPS, "")
-        return vlib.tlc_gen(f"{prop}-{name}", "Namespace", g, tag="SCN", workers=1, timeout=1500, simulate=simulate, xmx="4g")
     depth = 5 if quick else 7
-    nsim = 45 if quick else 400
-    sims = []
-    for names, modes in (("dollar", ("manifest", "dual")), ("quote", ("manifest", "dual")), ("path", ("dir", "dual", "manifest")),
-                         ("uni", ("dir", "dual", "manifest")), ("mixed", ("manifest", "dual")), ("plain", ("dir", "dual"))):
-        for mode in modes:
-            ops = ["table", "list", "reopen", "read"] if mode == "dir" else ALL_OPS
-            sims.append((f"s-{names}-{mode}", cfg(names, mode, depth, ops, devs=AS_BUILT_DEVS, maxlen=2 if quick else 3),
-                         f"num={nsim}", mode, nsim))
-    fut_gen = {name: pool.submit(gen, name, c, sim) for name, c, sim, _, _ in sims}
+    fut_gen = pool.submit(vlib.tlc_gen, f"{prop}-asbuilt", "Namespace",
+                          cfg("asbuilt", steps=depth, maxlen=2 if quick else 3, view="", invs="INVARIANTS GenPrint", props=""),
+                          "SCN", 1, 1500, "num=300" if quick else "num=4000", "4g")
 
     # 3. collect scenarios ------------------------------------------------------------------------------------------
-    mc_results = {name: fut_mc[name].result() for name, _, _ in mc_runs}
+    mc_results = {f: fut_mc[f].result() for f in families}
     phases["model_checked"] = round(time.time() - t0, 1)
     scenarios, gen_info = [], []
-    mode_of = {name: re.search(r'Mode = "(\w+)"', c).group(1) for name, c, _ in mc_runs}
-    for name, cap in gen_from_mc.items():
-        hists = vlib._printed(open(mc_results[name]["out"]).read(), "SCN")
-        if not hists:
-            raise vlib.ToolError(f"TLC generated no scenario ({name})")
-        uniq = list({json.dumps(h, sort_keys=True): h for h in hists}.values())
-        chosen, complete = pick(uniq, cap, rnd)
-        gen_info.append({"gen": name, "mode": "one history per distinct final state", "histories": len(hists),
-                         "distinct": len(uniq), "replayed": len(chosen)})
-        for h in chosen:
-            scenarios.append(hist_to_scenario(h, len(scenarios) + 1, mode_of[name], name, rnd))
-    for name, c, sim, mode, cap in sims:
-        hists, stats = fut_gen[name].result()
-        if not hists:
-            raise vlib.ToolError(f"TLC generated no scenario ({name})")
-        uniq = list({json.dumps(h, sort_keys=True): h for h in hists}.values())
-        chosen, _ = pick(uniq, cap, rnd)
-        gen_info.append({"gen": name, "mode": "simulate " + sim + f" depth {depth} (as-built model)", "histories": len(hists),
-                         "distinct": len(uniq), "replayed": len(chosen), "tlc": stats})
-        for h in chosen:
-            scenarios.append(hist_to_scenario(h, len(scenarios) + 1, mode, name, rnd))
+
+    def add(values, cap, source, note):
+        by_setup = {}
+        for v in values:
+            by_setup.setdefault((v["names"], v["mode"]), {})[json.dumps(v["hist"], sort_keys=True)] = v["hist"]
+        per = max(4, cap // max(1, len(by_setup)))
+        for (names, mode), hs in sorted(by_setup.items()):
+            uniq = list(hs.values())
+            chosen, _ = pick(uniq, per, rnd)
+            gen_info.append({"gen": source, "names": names, "mode": mode, "how": note, "distinct": len(uniq), "replayed": len(chosen)})
+            for h in chosen:
+                scenarios.append(hist_to_scenario(h, len(scenarios) + 1, mode, f"{source}:{names}", rnd))
+    for f in families:
+        vals = vlib._printed(open(mc_results[f]["out"]).read(), "SCN")
+        if not vals:
+            raise vlib.ToolError(f"TLC generated no scenario ({f})")
+        add(vals, 130 if quick else 700, f, "one history per distinct final state of the exhaustive run")
+    vals, gstats = fut_gen.result()
+    if not vals:
+        raise vlib.ToolError("TLC generated no scenario (asbuilt simulation)")
+    add(vals, 170 if quick else 2200, "asbuilt-sim", f"seeded simulation of the as-built model, depth {depth}")
+    wit = fut_wit.result()
+    wits = vlib._printed(open(wit["out"]).read(), "WIT")
+    got = {(d, w["inv"]) for w in wits for d in w["devs"]}
+    missing = [(d, i) for d, invs in AS_BUILT.items() for i in invs if (d, i) not in got]
+    if missing or wit["violated"]:
+        raise vlib.ToolError(f"as-built deviations no longer break the named properties on the model: missing {missing}, "
+                             f"violated {wit['violated']} (see {wit['out']}): the finding signatures are no longer tied to the specification")
     dev_info = []
-    for (dev, inv), fut in fut_dev.items():
-        r = fut.result()
-        wit = vlib._printed(open(r["out"]).read(), "WIT")
-        mode = [a[3] for a in AS_BUILT if a[0] == dev and a[1] == inv][0]
-        dev_info.append({"deviation": dev, "expected_to_break": inv, "broke": r["violated"], "distinct": r.get("distinct"),
-                         "witness": wit[0] if wit else None})
-        for h in wit[:1]:
-            scenarios.append(hist_to_scenario(h, len(scenarios) + 1, mode, f"witness:{dev}:{inv}", rnd))
+    for w in wits:
+        dev_info.append({"deviation": w["devs"], "breaks": w["inv"], "names": w["names"], "mode": w["mode"], "witness": w["hist"]})
+        scenarios.append(hist_to_scenario(w["hist"], len(scenarios) + 1, w["mode"], f"witness:{w['devs'][0]}:{w['inv']}", rnd))
     phases["scenarios_ready"] = round(time.time() - t0, 1)
 
     wd = vlib.workdir(f"{prop}-traces")
@@ -295,22 +268,29 @@ def run(prop, tier, replay):
     # 4. judge ------------------------------------------------------------------------------------------------------
     states = trans = 0
     mc_info = []
-    for name, c, ops in mc_runs:
-        r = mc_results[name]
+    for f in families:
+        r = mc_results[f]
         if r["violated"]:
             out.report({"spec": "Namespace", "invariant": r["violated"]},
-                       f"the intended design violates {r['violated']} (see {r['out']})", {"cfg": c})
-        zero = [a for k in ops for a in OP_ACTIONS[k] if r["coverage"].get(a, 0) == 0]
-        if zero:
-            raise vlib.ToolError(f"vacuous model run {name}: actions never taken {zero}")
+                       f"the intended design violates {r['violated']} (see {r['out']})", {"family": f})
+        cov = {}
+        for mm in _RE_COV.finditer(open(r["out"]).read()):
+            key = mm.group(1) + (":" + mm.group(2) if mm.group(2) else "")
+            cov[key] = max(cov.get(key, 0), int(mm.group(3)))
+        took = {}
+        for v in vlib._printed(open(r["out"]).read(), "SCN"):
+            for st in v["hist"]:
+                if st.get("r") == "ok":
+                    took[st["op"]] = took.get(st["op"], 0) + 1
+        zero = [a for a in ALL_OP_NAMES if took.get(a, 0) == 0] + [k for k, n in cov.items() if n == 0]
+        if zero or len(cov) < 8:
+            raise vlib.ToolError(f"vacuous model run {f}: calls that never took effect / disjuncts never taken: {zero} {cov}")
         states += r.get("distinct", 0)
         trans += r.get("generated", 0)
-        mc_info.append({"cfg": name, "distinct": r.get("distinct"), "generated": r.get("generated"), "depth": r.get("depth"),
-                        "wall_s": r["wall_s"]})
-    for d in dev_info:
-        if d["broke"] != d["expected_to_break"]:
-            raise vlib.ToolError(f"as-built deviation {d['deviation']} does not break {d['expected_to_break']} on the model "
-                                 f"(got {d['broke']}): the finding signature is no longer tied to the specification")
+        mc_info.append({"family": f, "distinct": r.get("distinct"), "generated": r.get("generated"), "depth": r.get("depth"),
+                        "wall_s": r["wall_s"], "next_disjunct_coverage": cov, "calls_answered_ok_in_final_histories": took})
+    mc_info.append({"family": "witness (as-built deviations, pruned once witnessed)", "distinct": wit.get("distinct"),
+                    "generated": wit.get("generated"), "wall_s": wit["wall_s"]})
     counts, events, bad_scn, samples = {}, 0, set(), []
     for k, fut in enumerate(fut_shards):
         tf, v = fut.result()
@@ -355,6 +335,7 @@ def run(prop, tier, replay):
                 "step and every probe after it was accepted by Trace_Namespace",
         "exhaustive": False, "exhaustive_note": "the model runs are exhaustive for their bounds; the replayed histories are a sample",
         "histories": {"scenarios": len(scenarios), "accepted": accepted, "events": events, "counts": counts, "generation": gen_info},
-        "model_runs": mc_info, "as_built_deviation_runs": dev_info, "harness_build_s": build_s, "phases_s": phases,
+        "model_runs": mc_info, "as_built_deviation_witnesses": dev_info, "simulation": gstats,
+        "harness_build_s": build_s, "phases_s": phases,
     }, time.time() - t0, len(out.violations), assumptions)
     return rc
